@@ -505,6 +505,12 @@ class Controller:
                     return_parameters=result,
                 )
             )
+        elif handler == self.on_hci_command:
+            # Unsupported or unknown command that is not answered with a Command
+            # Complete event: reject it with a Command Status event.
+            self._send_hci_command_status(
+                hci.HCI_ErrorCode.UNKNOWN_HCI_COMMAND_ERROR, command.op_code
+            )
         elif result is not None:
             logger.error("Async command handlers should return None, got %s", result)
 
@@ -2386,13 +2392,18 @@ class Controller:
         return hci.HCI_StatusReturnParameters(hci.HCI_ErrorCode.SUCCESS)
 
     def on_hci_le_read_local_p_256_public_key_command(
-        self, _command: hci.HCI_LE_Read_Local_P_256_Public_Key_Command
-    ) -> hci.HCI_StatusReturnParameters:
+        self, command: hci.HCI_LE_Read_Local_P_256_Public_Key_Command
+    ) -> None:
         '''
         See Bluetooth spec Vol 4, Part E - 7.8.36 LE Read P-256 Public Key Command
         '''
         # TODO create key and send hci.HCI_LE_Read_Local_P-256_Public_Key_Complete event
-        return hci.HCI_StatusReturnParameters(hci.HCI_ErrorCode.SUCCESS)
+        # Until then, this asynchronous command is answered with a Command Status
+        # event saying that it is not supported, instead of not being answered.
+        self._send_hci_command_status(
+            hci.HCI_ErrorCode.UNKNOWN_HCI_COMMAND_ERROR, command.op_code
+        )
+        return None
 
     def on_hci_le_add_device_to_resolving_list_command(
         self, _command: hci.HCI_LE_Add_Device_To_Resolving_List_Command
